@@ -4,6 +4,7 @@ from .. import build, flow, paths
 from ..paths import ptr_parts, strip_casts
 
 STRUCT = "messageq_t"
+STRUCTS = ("messageq_t", "messageq")      # the typedef name, or the tag if the struct is given one
 INIT_FUNCS = {"messageq_init": "initialiser: runs before the queue is shared (memset + field stores)"}
 ATOMIC_FIELDS = ("num_free", "sendp", "full_flags")
 
@@ -13,7 +14,7 @@ def field(ptr, fn, m):
     s, f = paths.field_of(ptr, fn, m)
     if f is None:
         return None
-    if s == STRUCT:
+    if s in STRUCTS:
         return f
     # embedded queues: kernel.atomic_runq.full_flags, fibre_eventq_t.eventq.num_free ...
     for pre in ("atomic_runq.", "eventq."):
@@ -26,7 +27,7 @@ def acc_field(a):
     """messageq field of a flow.Access (struct-qualified), or None."""
     if a.field is None:
         return None
-    if a.struct == STRUCT:
+    if a.struct in STRUCTS:
         return a.field
     for pre in ("atomic_runq.", "eventq."):
         if a.field.startswith(pre):
@@ -42,7 +43,7 @@ def check_representation(mods):
     cursor, a word of 'full' flags, a receive cursor).  If the structure no longer has those members the rules have no
     subject: that is 'cannot decide' (exit 2), never a verdict."""
     for m in mods:
-        tid = m.di_by_name.get(STRUCT)
+        tid = m.di_by_name.get(STRUCT) or m.di_by_name.get("messageq")
         if tid:
             have = set(p for p, o, s_, t in m.di_leaves(tid))
             missing = [f for f in EXPECTED_FIELDS if f not in have]
@@ -59,7 +60,7 @@ def mq_functions(mods):
     for m in mods:
         for fn in m.defined_functions():
             acc = [a for a in flow.accesses(fn, m) if acc_field(a) is not None
-                   and (a.struct == STRUCT)]
+                   and (a.struct in STRUCTS)]
             if acc:
                 out.append((m, fn, acc))
     return out
